@@ -116,6 +116,7 @@ type Exec struct {
 	mapOrderND  bool
 	mapOrderMax int
 	lastNow     string
+	maxCex      int
 	tier        int
 }
 
@@ -367,7 +368,7 @@ func (e *Exec) recordViolation(oblig string, m map[string]string, known string) 
 			n++
 		}
 	}
-	if n >= 3 {
+	if n >= e.maxCex {
 		return
 	}
 	*e.Viol = append(*e.Viol, Violation{Obligation: oblig, Model: m, Path: append([]bool{}, e.decisions...), Known: known})
